@@ -1,5 +1,5 @@
 (* Proofs about KV.Res.Replacement. *)
-From KV Require Import Base.Regex Base.RegexProofs Yaml.Match Yaml.MatchProofs Res.Selector Res.Replacement Res.ReplicaProofs.
+From KV Require Import Base.Regex Base.RegexProofs Yaml.Match Yaml.MatchProofs Yaml.MatchFrameProofs Res.Selector Res.Replacement Res.ReplicaProofs.
 
 Ltac inv H := inversion H; subst; clear H.
 
@@ -77,13 +77,6 @@ Section ResourceLevel.
 End ResourceLevel.
 
 (* ====================== field level ====================== *)
-(* two addresses are comparable when one is a prefix of the other *)
-Fixpoint comparable (a h : addr) : bool :=
-  match a, h with
-  | [], _ | _, [] => true
-  | i :: a', j :: h' => Nat.eqb i j && comparable a' h'
-  end.
-
 Lemma nth_error_replace_nth_other {A} (l : list A) : forall i j x,
   i <> j -> nth_error (replace_nth j x l) i = nth_error l i.
 Proof.
